@@ -11,6 +11,7 @@
 import ChumskyModel.Proofs.Lemmas.Total
 import ChumskyModel.Proofs.Lemmas.Top
 import ChumskyModel.Proofs.Lemmas.Guarded
+import ChumskyModel.Proofs.Lemmas.PrattTotal
 set_option linter.unusedSimpArgs false
 namespace Chumsky
 
@@ -80,7 +81,38 @@ theorem c20_then_iter_assertion_witness :
     peg 6 { toks := [5] } thenMix ⟨0, []⟩ .unit = .panic pNoProgress :=
   thenMix_panics
 
+/-! ### Pratt parsers (feature `pratt`; `Model/Pratt.lean`) -/
+
+/-- `pratt_go` adds no panic site: a panic of `atom.pratt(ops)` is a panic of its atom or of an operator parser at one of
+    the reference semantics' sites (`todo!()`, a progress assertion, an ill-typed or undefined reference) — in particular
+    never an `unwrap()` of the pending error — for every table, input, state and fuel -/
+theorem c20_pratt_panic_sites (fuel : Nat) (env : Env) (m : Mode) (atom : G) (ops : List PrattOp) (st : St)
+    (hm : env.memoOn = false) {w : Nat} (h : runPratt fuel env m atom ops st = .panic w) :
+    w = pTodo ∨ w = pNoProgress ∨ w = pIllTyped ∨ w = pUndefined :=
+  runPratt_panic_sites fuel env m atom ops st hm h
+
+/-- a failing Pratt parse always leaves a pending error (so `recover_with` / `map_err` / the top level around it find
+    one) -/
+theorem c20_pratt_failure_leaves_pending_error (fuel : Nat) (env : Env) (m : Mode) (atom : G) (ops : List PrattOp)
+    (st st' : St) (hm : env.memoOn = false) (h : runPratt fuel env m atom ops st = .fail st') :
+    st'.alt.isSome = true :=
+  runPratt_fail_alt fuel env m atom ops st st' hm h
+
+/-- the same two facts for recursive expression grammars `recursive(|e| atom.pratt(ops))`, at every grammar position -/
+theorem c20_recursive_pratt_panic_sites (x : XEnv) (n : Nat) (env : Env) (m : Mode) (g : G) (st : St)
+    (hm : env.memoOn = false) {w : Nat} (h : runX x n env m g st = .panic w) :
+    w = pTodo ∨ w = pNoProgress ∨ w = pIllTyped ∨ w = pUndefined :=
+  runX_panic_sites x n env m g st hm h
+
+theorem c20_recursive_pratt_failure_leaves_pending_error (x : XEnv) (n : Nat) (env : Env) (m : Mode) (g : G)
+    (st st' : St) (hm : env.memoOn = false) (h : runX x n env m g st = .fail st') : st'.alt.isSome = true :=
+  runX_fail_alt x n env m g st st' hm h
+
 #print axioms c20_unwraps_never_fire
+#print axioms c20_pratt_panic_sites
+#print axioms c20_pratt_failure_leaves_pending_error
+#print axioms c20_recursive_pratt_panic_sites
+#print axioms c20_recursive_pratt_failure_leaves_pending_error
 #print axioms c20_failure_leaves_pending_error
 #print axioms c20_failure_reported
 #print axioms c20_wf_no_panic
